@@ -554,7 +554,7 @@ pub fn tag_reads(case_text: &str, out: &mut dyn Write) {
             h = h.wrapping_mul(0x100000001b3);
         }
         let w = line.split_whitespace().next().unwrap_or("");
-        if w == "dump" || w == "extq" || w == "vsearch" || w == "q" {
+        if w == "dump" || w == "extq" || w == "vsearch" || w == "check" {
             writeln!(out, "{} @{:016x}", line, h).unwrap();
         } else {
             writeln!(out, "{}", line).unwrap();
